@@ -319,9 +319,26 @@ def _adjacent_dups(case):
     return False
 
 
+def _explained_by_adjacent_dedup(failure):
+    """F15's signature: the copy holds exactly the filtered source rows with every row that equals its
+    predecessor (among the rows that pass the filter) removed"""
+    import ast, re
+    m = re.match(r"filtered relation \S+ holds (\[.*\]), the source rows satisfying the filter are (\[.*\])$",
+                 failure, re.S)
+    if not m:
+        return False
+    try:
+        got, want = ast.literal_eval(m.group(1)), ast.literal_eval(m.group(2))
+    except (ValueError, SyntaxError):
+        return False
+    dedup = [r for i, r in enumerate(want) if i == 0 or r != want[i - 1]]
+    return got == dedup and got != want
+
+
 def known_match(case, failure, known):
     if case.get("k") == "mkprof" and isinstance(failure, str) and failure.startswith("filtered relation") \
-            and case.get("where") is not None and _adjacent_dups(case):
+            and case.get("where") is not None \
+            and (_adjacent_dups(case) or _explained_by_adjacent_dedup(failure)):
         for e in known:
             if e["id"] == "F15":
                 return "F15"
